@@ -9,7 +9,6 @@ open MongoModel MongoModel.Spec
 /-- the contribution of a successful update-like executor -/
 def updFun (idx : Nat) (res : UpdateResult) : BulkTotals → BulkTotals := fun t =>
   let t := match res.upserted with
-    | some .null => { t with nMatched := t.nMatched + res.n }
     | some id =>
       { t with upserted := t.upserted ++ [Val.doc [("index", Val.int idx), ("_id", id)]],
                nUpserted := t.nUpserted + res.n }
@@ -85,7 +84,6 @@ theorem ok_upserted {idx : Nat} {f : BulkTotals → BulkTotals} (h : OkFun idx f
   | del n => exact Or.inl rfl
   | upd res =>
     unfold updFun; dsimp only; split
-    · exact Or.inl rfl
     · exact Or.inr ⟨_, rfl⟩
     · exact Or.inl rfl
 
